@@ -266,6 +266,78 @@ def generate():
         raise ExtractError("stopInLoop: neither channel_.reset() nor removeAndResetChannel()")
     out.append("/-- `Connector::stopInLoop`: destroys the channel at once (true) or through the queued `resetChannel` (false) -/\n"
                "def stopResetsChannelNow : Bool := %s\n" % ("true" if now else "false"))
+    # ---- the back-off timer as an object that can be cancelled (F33): `retryTimer_ = loop_->runAfter(..)` in retry(),
+    # `loop_->cancel(retryTimer_)` in a member function of its own, called when a cycle starts (before startInLoop()) and
+    # in stopInLoop() (unconditionally / under a test of connect_ / not at all)
+    def _member_of_this(n):
+        n = strip(n)
+        while n.get("kind") in ("ImplicitCastExpr", "CXXConstructExpr") and len(kids(n)) == 1:
+            n = strip(kids(n)[0])
+        if n.get("kind") == "MemberExpr" and kids(n) and strip(kids(n)[0]).get("kind") == "CXXThisExpr":
+            return n.get("name")
+        return None
+    stored = [_member_of_this(kids(n)[1]) for n in walk(body_of(retry)) if n.get("kind") == "CXXOperatorCallExpr" and len(kids(n)) == 3
+              and ra[0] in list(walk(kids(n)[2])) and _member_of_this(kids(n)[1]) is not None]
+    if len(stored) > 1:
+        raise ExtractError("retry: the timer id is stored more than once")
+    timer_member = stored[0] if stored else None
+    cancel_fns = []
+    for d in docs:
+        for f in walk(d):
+            if f.get("kind") == "CXXMethodDecl" and body_of(f) and timer_member is not None:
+                cs = [n for n in kids(body_of(f)) if strip(n).get("kind") == "CXXMemberCallExpr"
+                      and strip(kids(strip(n))[0]).get("name") == "cancel" and len(kids(strip(n))) == 2
+                      and _member_of_this(kids(strip(n))[1]) == timer_member]
+                if cs:
+                    if f.get("name") in ("retry", "startInLoop", "connect", "connecting", "handleWrite", "handleError"):
+                        raise ExtractError("%s cancels the retry timer: outside the translator's subset" % f.get("name"))
+                    cancel_fns.append(f.get("name"))
+    cancel_fns = sorted(set(cancel_fns))
+
+    def _is_cancel(n):
+        """statement n is a direct call `cancelRetryTimer()` (a member function whose top level cancels the stored timer)"""
+        n = strip(n)
+        return (n.get("kind") == "CXXMemberCallExpr" and strip(kids(n)[0]).get("kind") == "MemberExpr"
+                and strip(kids(n)[0]).get("name") in cancel_fns and strip(kids(strip(kids(n)[0]))[0]).get("kind") == "CXXThisExpr")
+    for f in (retry, sil, conn):
+        if any(_is_cancel(n) for n in walk(body_of(f))):
+            raise ExtractError("%s cancels the retry timer: outside the translator's subset" % f.get("name"))
+    out.append("/-- `Connector::retry`: the id of the back-off timer is kept in a member (`%s`) -/\n"
+               "def retryTimerStored : Bool := %s\n" % (timer_member or "-", "true" if timer_member else "false"))
+    sc_top = kids(body_of(sc))
+    c_at = [i for i, n in enumerate(sc_top) if _is_cancel(n)]
+    s_at = [i for i, n in enumerate(sc_top) if "startInLoop" in calls_in(n)]
+    if any(_is_cancel(n) for n in walk(body_of(sc))) and not c_at:
+        raise ExtractError("startCycleInLoop: the retry timer is cancelled under a condition")
+    if len(s_at) != 1:
+        raise ExtractError("startCycleInLoop: expected one top-level call of startInLoop")
+    out.append("/-- `Connector::startCycleInLoop`: the pending back-off timer (of the previous cycle) is cancelled before "
+               "`startInLoop()` -/\ndef cycleStartCancelsRetryTimer : Bool := %s\n"
+               % ("true" if c_at and c_at[0] < s_at[0] else "false"))
+    sp_top = kids(body_of(spl))
+    acts_if = locate_if(spl, "state_")
+    if acts_if not in sp_top:
+        raise ExtractError("stopInLoop: the state test is no longer a top-level statement")
+    before = sp_top[:sp_top.index(acts_if)]
+    if any(_is_cancel(n) for n in walk(body_of(spl)) if n not in [x for b in before for x in walk(b)]):
+        raise ExtractError("stopInLoop: the retry timer is cancelled after / inside the state test")
+    uncond = [n for n in before if _is_cancel(n)]
+    cond = [n for n in before if n.get("kind") == "IfStmt" and any(_is_cancel(x) for x in walk(n))]
+    if uncond and not cond:
+        out.append(prop_def("stopCancelsRetryTimer", [("connect", "Bool")], "True",
+                            "`Connector::stopInLoop`: cancels the pending back-off timer first, unconditionally"))
+    elif len(cond) == 1 and not uncond:
+        ks = kids(cond[0])
+        body = kids(ks[1]) if ks[1].get("kind") == "CompoundStmt" else [ks[1]]
+        if len(ks) != 2 or not any(_is_cancel(n) for n in body) or mentions(if_cond(cond[0]), "state_"):
+            raise ExtractError("stopInLoop: `if (..) cancelRetryTimer()` has an else branch / a nested condition / tests state_")
+        guard(spl, "stopCancelsRetryTimer", [("connect", "Bool")], {"connect_": "connect"},
+              "`Connector::stopInLoop`: cancels the pending back-off timer first, under this test", cond=if_cond(cond[0]))
+    elif not uncond and not cond:
+        out.append(prop_def("stopCancelsRetryTimer", [("connect", "Bool")], "False",
+                            "`Connector::stopInLoop`: does not cancel the pending back-off timer"))
+    else:
+        raise ExtractError("stopInLoop: the retry timer is cancelled twice")
     hw = the_function(docs, "handleWrite")
     guard(hw, "writeActs", [ST], {"state_": "st"}, "`Connector::handleWrite`: the state test", "state_")
     guard(hw, "writeSoError", [("err", "Nat")], {"err": "err"}, "`Connector::handleWrite`: `if (err)`", "err")
